@@ -58,7 +58,51 @@ fn ref_filters(fs: &[(u8, u32)], l: &LzmaOptions) -> Result<Filters, String> {
     Ok(f)
 }
 
+/// hand-assembled LZMA2 streams (stored chunks with extreme size fields between real LZMA chunks):
+/// whatever liblzma's decoder accepts, ours must decode to the same bytes
+fn run_crafted(rep: &mut Report, rng: &mut Rng, thorough: bool) {
+    for i in 0..(if thorough { 300 } else { 24 }) {
+        let mut r = rng.fork();
+        let mut stream = vec![];
+        let mut first = true;
+        let mut shape = vec![];
+        for _ in 0..r.range(1, 4) {
+            if r.chance(2, 3) {
+                let n = *r.pick(&[1usize, 2, 256, 4096, 65535, 65536]);
+                stream.push(if first { 1 } else { *r.pick(&[1u8, 2]) });
+                stream.push(((n - 1) >> 8) as u8);
+                stream.push((n - 1) as u8);
+                let b = r.next() as u8;
+                stream.extend((0..n).map(|k| b.wrapping_add((k % 7) as u8)));
+                shape.push(format!("stored{n}"));
+            } else {
+                // a real compressed stream without its end byte; its first chunk resets the dictionary
+                let d = gen_data(&mut r, "text", 3000);
+                let o = gen_lzopts(&mut r, true, 1 << 16, false);
+                if let Outcome::Ok(c) = lzma2_compress(&d, &o, None, &[d.len()], 0) {
+                    stream.extend(&c[..c.len() - 1]);
+                    shape.push("lzma".into());
+                }
+            }
+            first = false;
+        }
+        stream.push(0);
+        let cap = 1 << 20;
+        let detail = || json!({"direction": "crafted->both", "format": "raw lzma2", "chunks": shape, "stream_len": stream.len(), "stream_fnv": fnv(&stream), "stream_head_hex": hex(&stream[..stream.len().min(48)]), "case": i});
+        rep.count("crafted.lzma2");
+        if let Ok(expect) = lref::lzma2_raw_decode(&stream, 1 << 20, cap) {
+            match lzma2_decompress(&stream, 1 << 20, None, &[*r.pick(&[1usize, 4096, 70000])], cap) {
+                Outcome::Ok((out, used)) if out == expect && used == stream.len() => {}
+                Outcome::Ok(_) => rep.fail("ours-lzma2-different-data:crafted", "a stream liblzma accepts decodes to different data / is not consumed", detail()),
+                other => rep.fail("ours-lzma2-rejects:crafted", &format!("we reject an LZMA2 stream that liblzma decodes: {}", other.describe()), detail()),
+            }
+            rep.case(format!("crafted:lzma2:{}", shape.join("+")), true, || detail());
+        }
+    }
+}
+
 pub fn run(rep: &mut Report, rng: &mut Rng, thorough: bool) {
+    run_crafted(rep, rng, thorough);
     let n = if thorough { 2000 } else { 160 };
     let max = if thorough { 1 << 20 } else { 100 << 10 };
     for i in 0..n {
@@ -67,7 +111,14 @@ pub fn run(rep: &mut Report, rng: &mut Rng, thorough: bool) {
         let dir_ours_to_ref = i % 2 == 0;
         let fmt = *r.pick(&["xz", "xz", "lzma", "lzma2", "lzip"]);
         let lz = gen_lzopts(&mut r, fmt == "xz" || fmt == "lzma2", 1 << 20, false);
-        let size = gen_size(&mut r, lz.dict, max);
+        let mut size = gen_size(&mut r, lz.dict, max);
+        let mut kind = kind;
+        if i % 16 == 15 {
+            // incompressible data of at least one maximal stored LZMA2 chunk (64 KiB), both directions
+            kind = "random";
+            size = 65536 * r.range(1, 3) as usize + *r.pick(&[0usize, 1, 77]);
+        }
+        let fmt = if i % 16 == 15 { *r.pick(&["xz", "lzma2"]) } else { fmt };
         let data = gen_data(&mut r, kind, size);
         let cap = data.len() + 64;
         rep.count(&format!("{}.{}", if dir_ours_to_ref { "ours->ref" } else { "ref->ours" }, fmt));
